@@ -1,7 +1,8 @@
 import GlmVerif.Spec.C10
-import GlmVerif.Gen.C10
-/-! table check of family `affinv` against the model generated from /repo (kernel evaluation) -/
+import GlmVerif.Gen.C10.affinv
+/-! table check of family `affinv` against the model of its units generated from /repo (kernel evaluation) -/
 namespace Glm.Props.C10
 open Glm Glm.Spec.C10 Glm.Gen.C10
-theorem affinv_ok : f_affinv.ok lookup = true := by decide +kernel
+set_option maxHeartbeats 4000000 in
+theorem affinv_ok : f_affinv.ok (fun _ ks => affinv_L ks) = true := by decide +kernel
 end Glm.Props.C10
